@@ -2426,6 +2426,22 @@ class C20(Oracle):
                     out.append(V('gym/info-not-empty', fname))
             if d and not c.get('noreset'):
                 do_reset(f' (after the terminal step {k})')
+        # a refused switch (a name that is no representation) changes nothing: the advertised spaces are still
+        # the spaces of what is returned
+        for setter in ('set_observation_representation', 'set_state_representation'):
+            try:
+                getattr(genv, setter)('no_overlap' if c['seed'] % 2 else 'Compact')
+            except Exception:
+                pass
+        try:
+            if not genv.observation_space.contains(genv.observation):
+                out.append(V('gym/observation-outside-advertised-space', f'{fname} after a refused switch of representation'))
+            if state_mode and (genv.state_space is None or not genv.state_space.contains(genv.state)):
+                out.append(V('gym/state-outside-advertised-space', f'{fname} after a refused switch of representation: advertised {genv.state_space}'))
+        except Exception as e:
+            out.append(V('gym/read-raises-after-a-refused-switch', f'{fname}: {type(e).__name__}: {e}'))
+        if out:
+            return out
         # switching representation updates the advertised space
         other = [e for e in ('default', 'no-overlap', 'compact') if e != c['enc']][c['seed'] % 2]
         genv.set_observation_representation(other)
@@ -2605,13 +2621,24 @@ class C15(Oracle):
             n = rr.choice(names)
             order = ['o', 's'] if rr.random() < 0.5 else ['s', 'o']
             for kind in order:
-                if kind == 'o':
-                    genv.set_observation_representation(n)
-                    cur['o'] = n
-                elif can_state:
-                    m = n if rr.random() < 0.7 else rr.choice(names)
-                    genv.set_state_representation(m)
-                    cur['s'] = m
+                try:
+                    if kind == 'o':
+                        genv.set_observation_representation(n)
+                        cur['o'] = n
+                    elif can_state:
+                        m = n if rr.random() < 0.7 else rr.choice(names)
+                        genv.set_state_representation(m)
+                        cur['s'] = m
+                except Exception as e:
+                    # a switch that is refused (whatever the reason) is no switch: what is advertised and what
+                    # is returned still belong together
+                    try:
+                        o_ = genv.observation
+                        if not genv.observation_space.contains(o_) or (cur['s'] is not None and not genv.state_space.contains(genv.state)):
+                            out.append(V('gym/observation-outside-advertised-space', f'{c.get("file", "random composition")} after a refused switch {k}/{kind} to {n} ({type(e).__name__}: {e})'))
+                    except Exception as e2:
+                        out.append(V('gym/read-raises-after-a-refused-switch', f'{type(e2).__name__}: {e2}'))
+                    return out
                 probe(f'after switch {k}/{kind}')
                 if out:
                     return out
@@ -3162,6 +3189,25 @@ class C01(Oracle):
                 break
         if out:
             return out
+        # ... and spends nothing: the valid step that follows is the one an equally seeded environment that
+        # never saw the refused calls takes
+        a_ok = r0.choice(list(env.action_space.actions))
+        refused = [x for x in Action if not env.action_space.contains(x)][:2] + [5, 'MOVE_LEFT']
+        try:
+            env.set_seed(c['seed'])
+            ref_next = env.functional_step(s, a_ok)
+            env.set_seed(c['seed'])
+            for junk in refused:
+                try:
+                    env.functional_step(s, junk)
+                except Exception:
+                    pass
+            got_next = env.functional_step(s, a_ok)
+            if enc_state(got_next[0]) != enc_state(ref_next[0]) or got_next[1:] != ref_next[1:]:
+                out.append(V('functional_step/refused-action-spends-randomness', f'state={c["state"]} trans={tnames}: after refused calls {refused} the step {a_ok.name} gives {enc_state(got_next[0])} instead of {enc_state(ref_next[0])}'))
+                return out
+        except Exception:
+            pass
         needs_unique = {r['name'] for r in data['reward_functions']} & {'getting_closer', 'getting_closer_shortest_path', 'proportional_to_distance'}
         for a in Action:
             inside = env.action_space.contains(a)
@@ -3241,6 +3287,8 @@ class C01(Oracle):
                 if r0.random() < 0.7 and old.color is not Color.NONE:
                     tok = enc_obj_of(old)
                     new = dec_obj(tok[:-1] + str(r0.choice([x for x in range(1, 5) if str(x) != tok[-1]])))  # same type and status, another colour
+                elif r0.random() < 0.15:
+                    new = dec_obj(r0.choice(['N', 'H']))  # the placeholders for "nothing held" / "not visible" are no world objects
                 else:
                     new = dec_obj(r0.choice(gen.ALPHABET_CORE))
                 st.grid[p] = new
